@@ -3,7 +3,7 @@
    (Model/C09Model.v), so every theorem of Props/C09.v about the model holds of the generated code. *)
 From Coq Require Import ZArith List Bool.
 From DV Require Import Model.PyPrims Model.C09AlphaTypes Model.C09Model Model.C09Prims Gen.CharIO
-  Model.C09Nexus Model.C09Dataset Proofs.C09GenFasta Proofs.C09GenPhylip Proofs.C09GenPhylipW Proofs.C09GenNexus.
+  Model.C09Nexus Model.C09Dataset Model.C09TitleMode Proofs.C09GenFasta Proofs.C09GenPhylip Proofs.C09GenPhylipW Proofs.C09GenNexus.
 Import ListNotations.
 Open Scope Z_scope.
 
@@ -109,29 +109,33 @@ Proof. exact gen_link_blocks_eq. Qed.
 Print Assumptions gen_nexus_link_blocks_is_model.
 
 (* NexusWriter._get_block_title: one request for the title of one block. A block is its identity
-   plus its label; _block_title_map is `given`, _title_block_map the same pairs keyed by the
-   escaped title. escape_nexus_token (esc: property C02's layer), str(id(block)) (idstr) and the
-   bound on the iterations of the while loop (fuel) are parameters of both sides. The loop is the
-   model's uniq_title: the title is escaped first and the ESCAPED text is tested against, and
-   stored in, the title map. *)
-Theorem gen_nexus_get_block_title_is_model : forall (esc : bool -> bool -> text -> text) (idstr : nat -> text) (fuel : nat)
+   plus its label; _block_title_map is `given`, _title_block_map the same pairs keyed by the KEY
+   of the escaped title: title_norm upper = upper when the current source compares titles after
+   .upper() (title_ci, read off the source on every run: after notes/C09_fix_1.patch), the title
+   itself when it compares them exactly. escape_nexus_token (esc: property C02's layer),
+   str.upper (upper), str(id(block)) (idstr) and the bound on the iterations of the while loop
+   (fuel) are parameters of both sides. The loop is the model's uniq_title: the title is escaped
+   first and the key of the ESCAPED text is tested against, and stored in, the title map. *)
+Theorem gen_nexus_get_block_title_is_model : forall (upper : text -> text) (esc : bool -> bool -> text -> text)
+    (idstr : nat -> text) (fuel : nat)
     (sbt : option bool) (namespaces : list unit) (preserve_spaces unquoted_underscores : bool)
     (label : option text) (given : list (nat * text)) (b : nat),
-  NexusWriter_get_block_title esc idstr fuel sbt namespaces preserve_spaces unquoted_underscores label
-    (title_block_map given) given b
-  = do x <- get_block_title (esc preserve_spaces (negb unquoted_underscores)) idstr fuel
+  NexusWriter_get_block_title upper esc idstr fuel sbt namespaces preserve_spaces unquoted_underscores label
+    (title_block_map (title_norm upper) given) given b
+  = do x <- get_block_title (esc preserve_spaces (negb unquoted_underscores)) (title_norm upper) idstr fuel
              (link_blocks sbt (len namespaces)) given b label ;;
-    Ok (title_block_map (fst x), fst x, snd x).
+    Ok (title_block_map (title_norm upper) (fst x), fst x, snd x).
 Proof. exact gen_get_block_title_eq. Qed.
 Print Assumptions gen_nexus_get_block_title_is_model.
 
 (* different blocks, none of which has a title yet, each asking once: the titles are those of
-   assign_titles (Props/C09.v block_titles_distinct: pairwise different) *)
-Theorem nexus_requested_titles_are_assigned : forall (esc : text -> text) (idstr : nat -> text)
+   assign_titles (Props/C09.v block_titles_distinct: keys pairwise different;
+   multi_namespace_titles_resolve: with upper-cased keys every title resolves in the reader) *)
+Theorem nexus_requested_titles_are_assigned : forall (esc norm : text -> text) (idstr : nat -> text)
     (blocks : list (nat * option text)) (given : list (nat * text)),
   NoDup (map fst blocks) ->
   (forall b, In b (map fst blocks) -> title_of_block given b = None) ->
-  request_titles esc idstr blocks given
-  = assign_titles esc (map (fun x => title_source idstr (fst x) (snd x)) blocks) (map snd given).
+  request_titles esc norm idstr blocks given
+  = assign_titles esc norm (map (fun x => title_source idstr (fst x) (snd x)) blocks) (map norm (map snd given)).
 Proof. exact request_titles_assign. Qed.
 Print Assumptions nexus_requested_titles_are_assigned.
